@@ -131,6 +131,21 @@ def plan(tier, seed):
                      capture=(rnd.random() < 0.75, rnd.random() < 0.75, rnd.random() < 0.75), retry=rnd.random() < 0.2,
                      observe=rnd.random() < 0.3, async_steps=rnd.random() < 0.25, chatty=rnd.random() < 0.06)
 
+    def cleanup_only_programs():
+        """programs in which NOTHING fails except a cleanup registered at a given layer (every layer, raising or not)"""
+        res = []
+        n = 0
+        for layer in ("", "scenario", "rule", "feature", "testrun"):
+            for raises in (True, False):
+                for in_rule in (False, True):
+                    n += 1
+                    sc1 = G.scenario([G.step("pass", cl=[n, layer, raises]), "pass"])
+                    sc2 = G.scenario(["pass"])
+                    items = [G.rule([sc1, sc2])] if in_rule else [sc1, sc2]
+                    prog = {"features": [G.feature(items), G.feature([G.scenario(["pass"])])], "family": "cleanup"}
+                    res.append((with_o2(prog), [G.cfg(), G.cfg(stop=True)], [[0, 0]]))
+        return res
+
     def with_skips(p, prob):
         """some programs: a before_feature / before_rule / before_scenario hook excludes its element at run time"""
         if rnd.random() < prob:
@@ -179,6 +194,7 @@ def plan(tier, seed):
             out.append((p, [dict(c, retry=False) for c in (rcfg(), rcfg())] if p.get("skips") else [rcfg(), rcfg()], rfaults(p, 2)))
         for p in G.family_big(rnd, 40):
             out.append((with_o2(p), [rcfg()], rfaults(p, 2)))
+        out.extend(cleanup_only_programs())
     else:
         # ~85k runs: (a) EVERY hook invocation as injection point on the exhaustive family scen(2) under the default
         # configuration (also with autoretry: positions of the second attempt); (b) scen(3) under 4 configurations with
@@ -204,6 +220,7 @@ def plan(tier, seed):
             nh = G.count_hooks_upper(G.flatten(p))
             cf = [rcfg(), rcfg()]
             out.append((p, [dict(c, retry=False) for c in cf] if p.get("skips") else cf, [[0, 0]] + spread(nh, 6) + rfaults(p, 2)[1:]))
+        out.extend(cleanup_only_programs())
         for p in G.family_big(rnd, 300):
             out.append((with_o2(p), [rcfg(), rcfg()], rfaults(p, 6)))
     return out
@@ -213,7 +230,7 @@ def shared(chk, part="core"):
     """Run (or load) the shared stage for this tree / tier / seed.  Returns a dict:
        n_runs, tlc: [{module,cfg,distinct,generated,wall,coverage}], verdicts: {clause: [ {key, ...} ]},
        divergences, samples, design_violations"""
-    key = tree_key({"tier": chk.tier, "seed": chk.seed, "part": part, "v": 10})
+    key = tree_key({"tier": chk.tier, "seed": chk.seed, "part": part, "v": 11})
     os.makedirs(CACHE, exist_ok=True)
     # one entry per (part, tier, repository location): runs against a mutated copy must not evict /repo's entry
     prefix = "%s-%s-%s-" % (part, chk.tier, hashlib.sha256(REPO.encode()).hexdigest()[:8])
